@@ -139,23 +139,40 @@ class RawClient:
 _RICH_MUTED = False
 
 
+_RICH_ORIG = None
+
+
 def _mute_rich():
-    """console output of the library's RichHandler is of no interest to any check"""
-    global _RICH_MUTED
+    """console output of the library's RichHandler is of no interest to most checks"""
+    global _RICH_MUTED, _RICH_ORIG
     if not _RICH_MUTED:
         try:
             from rich.logging import RichHandler
 
+            if _RICH_ORIG is None:
+                _RICH_ORIG = RichHandler.emit
             RichHandler.emit = lambda self, record: None
         except Exception:
             pass
         _RICH_MUTED = True
 
 
+def _unmute_rich():
+    """the real console path (formatting and markup included), for worlds that ask for it: the text goes to a buffer"""
+    global _RICH_MUTED
+    if _RICH_MUTED and _RICH_ORIG is not None:
+        from rich.logging import RichHandler
+
+        RichHandler.emit = _RICH_ORIG
+    _RICH_MUTED = False
+
+
 class World:
     def __init__(self, timecode: bool = False, log_level: int = SILENT, send_msg_timing: bool = True,
-                 fin_grace: int = 1, mgr_kwargs: Optional[dict] = None):
+                 fin_grace: int = 1, mgr_kwargs: Optional[dict] = None, console: bool = False):
         import pyrtma.manager as M
+
+        self.console = console
 
         N.install()
         self.timecode = timecode
@@ -180,10 +197,15 @@ class World:
         kw = dict(ip_address="127.0.0.1", port=PORT, timecode=timecode, log_level=log_level,
                   send_msg_timing=send_msg_timing)
         kw.update(mgr_kwargs or {})
-        if log_level < SILENT:
+        if console:
+            _unmute_rich()
+        elif log_level < SILENT:
             _mute_rich()
         self.mgr = M.MessageManager(**kw)
-        self._silence_console()
+        if console:
+            self._buffer_console()
+        else:
+            self._silence_console()
         self.thread = threading.Thread(target=self._main, name="vf-mgr", daemon=True)
         self.net.mgr_thread = self.thread
         self.thread.start()
@@ -191,6 +213,21 @@ class World:
         self._check_exit()
 
     # ---- manager thread ---------------------------------------------------------------------
+    def _buffer_console(self):
+        """keep the manager's console handler as it is configured by default, but let it write into a buffer"""
+        import io
+
+        try:
+            from rich.console import Console
+            from rich.logging import RichHandler
+
+            self.console_text = io.StringIO()
+            for h in list(self.mgr.logger.logger.handlers):
+                if isinstance(h, RichHandler):
+                    h.console = Console(file=self.console_text, width=240, force_terminal=False)
+        except ImportError:
+            pass
+
     def _silence_console(self):
         lg = self.mgr.logger
         try:
